@@ -118,10 +118,51 @@ def rule_c(R, ctx):
              "split_str/Utf16=%s %s — text with surrogate pairs is cut at the wrong place" % (cuts["start"], cuts["end"], other), cs.loc())
 
 
+def rule_e(R, ctx):
+    import re
+    Y = ctx.yrs
+    R.rule("C13.e", "R-OWN/R-PROV what a snapshot restore writes: in Store::encode_state_from_snapshot every call that receives the "
+                    "encoder is either write_blocks_to(&snapshot.state_map, ..) or snapshot.delete_set.encode(..) — blocks up to the "
+                    "snapshot's state vector and the snapshot's own delete set, on every non-error path; the store's current delete "
+                    "set (encode_diff, IdSet::from_store) never reaches that encoder: deletions do not advance any clock, so equal "
+                    "state vectors do not mean an unchanged document")
+    fn = Y.fn("yrs::store::Store::encode_state_from_snapshot")
+    v = FnView(fn)
+    ENC = None
+    for l in range(1, fn.argc() + 1):
+        if fn.local_name(l) == "encoder":
+            ENC = l
+    if ENC is None:
+        raise AnchorLost("parameter `encoder` of encode_state_from_snapshot")
+    seen = {"blocks": [], "ds": []}
+    for cs, site in ordinal_sites([c for c in fn.calls() if any(simp_deep(v.arg(c, i))[0] == "param" and simp_deep(v.arg(c, i))[1] == ENC
+                                                              for i in range(len(c.args)))]):
+        nm = F.strip_generics(cs.name)
+        if nm.endswith("Store::write_blocks_to"):
+            sv = v.arg(cs, 1, 10)
+            ok = term_has_field(sv, "Snapshot.state_map") and any(x[0] == "param" and fn.local_name(x[1]) == "snapshot" for x in walk(sv))
+            seen["blocks"].append(cs)
+            R.ob("C13.e", fn, site, ok, "blocks are written up to %s" % sshow(sv, 5), cs.loc())
+        elif re.search(r"IdSet as .*Encode>::encode$|IdSet::encode$", nm) or nm.endswith("Encode::encode"):
+            recv = v.arg(cs, 0, 10)
+            ok = term_has_field(recv, "Snapshot.delete_set") and any(x[0] == "param" and fn.local_name(x[1]) == "snapshot" for x in walk(recv))
+            seen["ds"].append(cs)
+            R.ob("C13.e", fn, site, ok, "delete set written: %s" % sshow(recv, 5), cs.loc())
+        else:
+            R.ob("C13.e", fn, site, False, "the encoder is also handed to %s, which is neither write_blocks_to(snapshot.state_map) nor "
+                 "snapshot.delete_set.encode: whatever it writes is not derived from the snapshot" % nm, cs.loc())
+    cfg = fn.cfg()
+    # both writes lie on every path that returns Ok
+    oks = [i for i, j, st in fn.stmts() if st["dst"] == 0 and "agg" in st["rv"] and st["rv"]["agg"].get("variant") == "Ok"]
+    both = bool(oks) and all(any(cfg.dominates(c.bb, o) for c in seen["blocks"]) and any(cfg.dominates(c.bb, o) for c in seen["ds"]) for o in oks)
+    R.ob("C13.e", fn, "both-on-every-ok-path", both, "write_blocks_to and snapshot.delete_set.encode dominate every Ok return: %s" % both)
+
+
 def check(ctx, R):
     from . import wire_rules
     R.run("C13.a", rule_a, ctx)
     R.run("C13.b", wire_rules.c13_b, ctx)
     R.run("C13.c", rule_c, ctx)
     R.run("C13.d", wire_rules.c13_d, ctx)
+    R.run("C13.e", rule_e, ctx)
     return {}
